@@ -11,6 +11,10 @@ pub mod c09;
 pub mod c10;
 pub mod c11;
 pub mod c12;
+pub mod c13;
+pub mod c14;
+pub mod c15;
+pub mod c16;
 pub mod c18;
 pub mod c19;
 pub mod c20;
@@ -41,6 +45,10 @@ pub fn dispatch(id: &str, tier: Tier, seed: u64, replay: Option<&str>) -> i32 {
         "C10" => d!(c10),
         "C11" => d!(c11),
         "C12" => d!(c12),
+        "C13" => d!(c13),
+        "C14" => d!(c14),
+        "C15" => d!(c15),
+        "C16" => d!(c16),
         "C18" => d!(c18),
         "C19" => d!(c19),
         "C20" => d!(c20),
